@@ -1,7 +1,7 @@
 """C11 — export (DESIGN §5 C11: R11.1 … R11.5)."""
 from ..prov import get_an, pp, bytes_of
 from .. import witness
-from .common import (all_ans, where, adt_field_stores, adt_field_mut_borrows, closure_ret, hpke_variant, impl_bodies, ret_classes,
+from .common import (result_outcome, is_ok_agg, all_ans, where, adt_field_stores, adt_field_mut_borrows, closure_ret, hpke_variant, impl_bodies, ret_classes,
                      fn_err_variants)
 from . import c02, rfc9180 as rfc
 
@@ -33,15 +33,33 @@ def check_export_errors(rep, facts, rule='R11.1'):
         fn = b.key
         if b.impl_of['self_ty'].startswith('aead::AeadCtx<'):
             inner = b.key
-            rt = a.ret_val()
+            # form-independent (after normalisation `.map_err(f)`, `match` and `?` are one shape): exactly one branch decides on
+            # the labeled_expand result; on its failure edge every return is Err(KdfOutputTooLong); on its success edge every
+            # return is Ok(the unit payload of the HKDF result); nothing returns without passing that branch
+            ex = a.calls(lambda c: c['name'] == 'labeled_expand')
             ok = False
-            if rt[0] == 'call' and rt[1] == 'core::result::Result::map_err':
-                src, clos = rt[2]
-                cr = closure_ret(facts, clos)
-                ok = src[0] == 'call' and src[1] == 'kdf::LabeledExpand::labeled_expand' and cr is not None and hpke_variant(cr) == 'KdfOutputTooLong'
-            rep.check(ok, rule, fn, 'error-mapping', pp(rt)[:200], 'labeled_expand(..).map_err(|_| KdfOutputTooLong): Ok passes through, every Err becomes KdfOutputTooLong', where(a))
-            rep.check(len(a.cfg.returns) == 1 and len(a.return_terms()) == 1, 'R11.4', fn, 'single-return', '%d return value(s)' % len(a.return_terms()),
-                      'no path returns Ok without the HKDF result', where(a))
+            found = '%d labeled_expand call(s)' % len(ex)
+            single = False
+            if len(ex) == 1:
+                xbi = ex[0][0]
+                o = result_outcome(a, facts, xbi)
+                if o is not None:
+                    hows = sorted({h for _, _, h in o['err_returns']})
+                    oks = []
+                    outside = []
+                    for s_, tt in a.return_terms():
+                        if s_ in (None, 'entry'):
+                            outside.append(pp(tt)[:60])
+                        elif a.cfg.edge_dominates(o['ok_edge'][0], o['ok_edge'][1], s_[0]):
+                            pl = tt[3][0] if is_ok_agg(tt) and len(tt[3]) == 1 else None
+                            oks.append(pl is not None and (pl == ('agg', 'tuple', 'tuple', (), ()) or (pl[0] == 'okval' and pl[1][0] == 'call' and pl[1][3] == xbi)))
+                        elif not a.cfg.edge_dominates(o['err_edge'][0], o['err_edge'][1], s_[0]):
+                            outside.append(pp(tt)[:60])
+                    ok = hows == ['KdfOutputTooLong'] and bool(oks) and all(oks)
+                    single = not outside
+                    found = '%s form; failure -> %s; success returns Ok(()): %s; returns not decided by the HKDF verdict: %s' % (o['form'], hows, oks, outside)
+            rep.check(ok, rule, fn, 'error-mapping', found, 'Ok iff labeled_expand returned Ok, every Err becomes KdfOutputTooLong', where(a))
+            rep.check(single, 'R11.4', fn, 'single-return', found, 'no path returns without the HKDF verdict', where(a))
         else:
             rt = a.ret_val()
             ok = rt[0] == 'call' and rt[4] and rt[4][3] and rt[4][3].endswith('>::export') and pp(rt[2][0]) == '&*p1.0' and rt[2][1:] == (('param', 2), ('param', 3))
